@@ -683,9 +683,17 @@ def _scale_sn(
     """
     norm = 1.1926
     data = np.asanyarray(data, dtype=np.float64)
-    diffs = np.abs(data[..., None] - data[..., None, :])
+    # pairwise differences are taken within each lane: bring the lane to the last axis
+    if axis is None:
+        lanes = data.reshape(-1)
+    else:
+        axes = (axis,) if isinstance(axis, int) else tuple(axis)
+        axes = tuple(ax % data.ndim for ax in axes)
+        moved = np.moveaxis(data, axes, range(data.ndim - len(axes), data.ndim))
+        lanes = moved.reshape(*moved.shape[: data.ndim - len(axes)], -1)
+    diffs = np.abs(lanes[..., None] - lanes[..., None, :])
     median_diffs = np.median(diffs, axis=-1)
-    return norm * np.median(median_diffs, axis=axis)
+    return norm * np.median(median_diffs, axis=-1)
 
 
 def _scale_gapper(
